@@ -124,6 +124,18 @@ Proof.
 Qed.
 Print Assumptions rdma_drain_sound.
 
+(** ... and conversely a pending drain IS acknowledged as soon as nothing is in
+    flight: the drain stage of the next tick pushes the DrainRsp when the
+    control port has room. *)
+Theorem rdma_drain_progress : forall c s d,
+  draining s = true -> fully_drained s = true -> cur s = Some d ->
+  bad_dst P_CT (m_src d) = false -> (length (ct_out s) < bufsz c)%nat ->
+  let s' := fst (drain c s) in
+  ct_out s' = ct_out s ++ [ctl_rsp FL_DRAIN_RSP d] /\ draining s' = false /\
+  txs (ch_in s') = [] /\ txs (ch_out s') = [].
+Proof. exact drain_progress. Qed.
+Print Assumptions rdma_drain_progress.
+
 (** While paused — from any reachable state with the pause flag set until the
     next RestartRsp is pushed — no request from inside is accepted: the list
     of transactions created from inside does not grow (hence nothing new is
